@@ -7,9 +7,9 @@ import (
 	"bytes"
 	"encoding/hex"
 	"encoding/json"
-	"hash/crc32"
 	"fmt"
 	"go/types"
+	"hash/crc32"
 	"os"
 	"os/exec"
 	"path/filepath"
@@ -20,14 +20,14 @@ import (
 )
 
 type Judge struct {
-	Kind      string `json:"kind"`
-	Step      int    `json:"step"`
-	Step2     int    `json:"step2,omitempty"`
-	ExpectHex string `json:"expect_hex,omitempty"`
-	ExpectMsg any    `json:"expect_msg,omitempty"`
-	ExpectRet any    `json:"expect_ret,omitempty"`
-	Bound     uint64 `json:"bound,omitempty"`
-	Note      string `json:"note,omitempty"`
+	Kind      string     `json:"kind"`
+	Step      int        `json:"step"`
+	Step2     int        `json:"step2,omitempty"`
+	ExpectHex string     `json:"expect_hex,omitempty"`
+	ExpectMsg any        `json:"expect_msg,omitempty"`
+	ExpectRet any        `json:"expect_ret,omitempty"`
+	Bound     uint64     `json:"bound,omitempty"`
+	Note      string     `json:"note,omitempty"`
 	Ignore    []string   `json:"ignore,omitempty"` // top-level fields left out of message comparisons
 	Frame     *FrameInfo `json:"frame,omitempty"`
 	Prior     int        `json:"prior,omitempty"` // unread bytes that were in the buffer before the frame
@@ -318,6 +318,21 @@ func judge(j Judge, res []RunResult, runErr error) (confirmed bool, observed any
 			return true, map[string]any{"err": *r.Err}
 		}
 		return r.Buf != j.ExpectHex, map[string]any{"buf": r.Buf}
+	case "same_as_step":
+		// the bytes appended at Step (after the prior content ExpectHex) must equal the bytes of Step2
+		r2 := get(j.Step2)
+		if r.Panic != nil || r2.Panic != nil {
+			return true, map[string]any{"panic": r.Panic}
+		}
+		if r.Err != nil || r2.Err != nil {
+			return true, map[string]any{"err": r.Err, "err_first": r2.Err}
+		}
+		if !strings.HasPrefix(r.Buf, j.ExpectHex) {
+			return true, map[string]any{"buf": r.Buf, "note": "prior bytes altered"}
+		}
+		return r.Buf[len(j.ExpectHex):] != r2.Buf, map[string]any{"appended": r.Buf[len(j.ExpectHex):], "into_empty": r2.Buf}
+	case "prefix_ne":
+		return !strings.HasPrefix(r.Buf, j.ExpectHex), map[string]any{"buf": r.Buf}
 	case "msg_ne":
 		if r.Panic != nil {
 			return true, map[string]any{"panic": *r.Panic}
